@@ -14,6 +14,44 @@ def run(ctx):
     if not ctx.quick:
         J.schedule_sweep(ctx, "C05", True)
     J.run_scenarios(ctx, "C05", scenarios(ctx))
+    starvation(ctx)
+
+
+def starvation(ctx):
+    """"Every interleaving with other traffic": a guaranteed message of the largest single-datagram size is queued while the application keeps sending one small
+    guaranteed message per frame over a lossless link whose round trip exceeds the resend interval.  Datagrams leave on every frame; the queued message must be
+    on one of them within a bounded time (here: two seconds), not only once the other traffic pauses."""
+    from connworld import ConnWorld, FnPolicy
+    for one_way in (6, 4):                      # ticks: 100 ms and 67 ms one way
+        for big in ("max", "max-34"):
+            w = ConnWorld()
+            try:
+                P = w.C.Packet
+                ln = P.MAX_PAYLOAD_SIZE if big == "max" else P.MAX_PAYLOAD_SIZE - 34
+                pol = FnPolicy(fate=lambda *a: [one_way])
+
+                def sends(tick, name, world):
+                    out = []
+                    if name == "c" and tick < 330:
+                        out.append((20, -1, False))
+                    if name == "c" and tick == 30:
+                        out.append((ln, -1, True))
+                    return out
+                pol._s = sends
+                w.run(pol, 420)
+                big_pid = next(e["pid"] for e in w.ev if e["ev"] == "send" and e["len"] == ln)
+                sent_at = next((e["now"] for e in w.ev if e["ev"] == "build" and e["e"] == "c" and any(m["pid"] == big_pid for m in e["msgs"])), None)
+                t30 = [e["now"] for e in w.ev if e["ev"] == "build" and e["e"] == "c"][30]
+                ctx.case(("starvation", one_way, big))
+                ctx.evaluations += 1
+                waited = None if sent_at is None else (sent_at - t30) / 1e4
+                if sent_at is None or waited > 2.0:
+                    ctx.fail("a guaranteed message of %d bytes queued while one 20-byte guaranteed message per frame keeps being sent over a lossless link with %d ms one-way delay %s: "
+                             "_build_packet_impl packs the retries that are due first and skips a queued message that no longer fits, and with a round trip above the resend interval a retry is due on every frame"
+                             % (ln, one_way * 1000 // 60, "was never put on the wire in 6.5 s" if sent_at is None else "waited %.2f s for its first datagram (it left when the other traffic paused)" % waited),
+                             dict(one_way_ticks=one_way, length=ln, first_datagram_after_s=waited), sig="large-message-starved-by-retries")
+            finally:
+                w.close()
 
 
 def scenarios(ctx):
